@@ -315,11 +315,18 @@ SpecialNames(cls) ==
     [] cls \in TriangleBased -> {"vertex", "edge", "edge-ext", "face", "plane"}
     [] cls = "Dipole" -> {"position"}
     [] OTHER -> {}
+\* one name for where a point lies: its boundary stratum if it is on the boundary, otherwise the most specific
+\* extension set it belongs to (used to localise findings)
+LocusOrder == <<"edge-ext", "hull-ext", "base-ext", "face-ext", "ext", "plane", "axis", "negx", "midplane">>
+Locus(b, x, c) == IF c = "on" THEN SurfaceC(b, x, c)
+                  ELSE LET S == Sets(b, x)
+                           hit == {i \in DOMAIN LocusOrder : LocusOrder[i] \in S} IN
+                       IF hit = {} THEN "-" ELSE LocusOrder[MinOf(hit)]
 Special(b, box) == {x \in box : Sets(b, x) # {}}
 
 \* DOCUMENTED singular points, the only places where a non-finite result is acceptable (C15):
-\*  - the location of a Dipole: field_BH_dipole.py, dipole_Hfield: "when r=0 return np.inf in all non-zero
-\*    moments directions" (tests/test_obj_Dipole.py::test_Dipole_zero_position pins a non-finite result);
+\*  - the location of a Dipole: dipole_Hfield docstring (field_BH_dipole.py): "Returns np.inf for all non-zero
+\*    moment components in the origin." (tests/test_obj_Dipole.py::test_Dipole_zero_position pins a non-finite result);
 \*  - vertices of Triangle-based sources: triangle_Bfield docstring (field_BH_triangle.py, Notes):
 \*    "Corners give (nan, nan, nan). Edges and in-plane perp components are set to 0." (pinned by
 \*    tests/test_BHMJ_level.py, triangle corner cases).  Tetrahedron and
@@ -333,8 +340,9 @@ FarDir(m) == LET a == <<Abs(m[1]), Abs(m[2]), Abs(m[3])>>
              ELSE IF nz = 2 /\ Cardinality({a[i] : i \in {j \in 1..3 : a[j] # 0}}) = 1 THEN (IF a[3] = 0 THEN "xy-diagonal" ELSE "z-diagonal")
              ELSE IF nz = 3 /\ a[1] = a[2] /\ a[2] = a[3] THEN "space-diagonal"
              ELSE IF nz = 2 THEN "plane" ELSE "generic"
-\* documented output shape of source.getX(observers, squeeze): squeeze(m=1, k=1, n, 3)
-FieldShape(n, asvector, squeeze) == IF ~squeeze THEN (IF asvector THEN <<1, 1, 3>> ELSE <<1, 1, n, 3>>)
+\* documented output shape for one source with a path of length 1 and one set of n observer positions:
+\* squeeze(l=1, m=1, k=1, n, 3) (getB docstring: "shape squeeze(l, m, k, n1, n2, ..., 3)"; squeeze removes all axes of length 1)
+FieldShape(n, asvector, squeeze) == IF ~squeeze THEN <<1, 1, 1, n, 3>>
                                     ELSE IF asvector \/ n = 1 THEN <<3>> ELSE <<n, 3>>
 
 \* ------------------------------------------------------------ Part 5: tolerances (DESIGN.md 3.4), in q12 units (1e-12 of gross)
